@@ -140,6 +140,12 @@ func RunCheck(l *Loaded, spec *Spec, opt Options) int {
 			if opt.Verbose {
 				fmt.Printf("  model=%s\n  native output: %s\n", fmtModel(cd.c.Vals), tail(cd.outcome.Output, 600))
 			}
+			if opt.Propose {
+				if _, listed := known[cd.c.Key]; !listed {
+					pk, _ := json.Marshal(Known{Status: "known", Property: spec.Prop, Key: cd.c.Key, What: "UNCONFIRMED-AT-RECORDING"})
+					fmt.Printf("PROPOSE %s\n", pk)
+				}
+			}
 			continue
 		}
 		if k, ok := known[cd.c.Key]; ok {
